@@ -141,7 +141,8 @@ Section Removal.
   Variable tn : str -> str.
   Variable acc : str -> str -> Prop.
   Variables rh wh : fhandle -> str -> nat -> Prop.
-  Hypothesis HLa : api_laws a V V' tn acc rh wh.
+  Variables hid anc : str -> Prop.
+  Hypothesis HLa : api_laws a V V' tn acc rh wh hid anc.
 
   (** [s0]: this filesystem's view when the removals began; [s']: the other
       view; [D]: the paths removed so far *)
@@ -234,17 +235,17 @@ Section Removal.
 
   Lemma remove_step (s0 s' : store) (D : list str) (w : world) (p : str) (n : node) :
     RInv s0 s' D w -> p <> s_root -> snolinkpar s0 p -> V w !! p = Some n ->
-    (forall q n0, s0 !! q = Some n0 -> In p (ancestors q) -> In q D) ->
+    (forall q n0, s0 !! q = Some n0 -> In p (ancestors q) -> In q D) -> ~ anc p ->
     exists w', a_remove a p w = (MOk tt, w') /\ RInv s0 s' (D ++ [p]) w'.
   Proof.
-    intros HR Hne Hnlp Hp Hbelow.
+    intros HR Hne Hnlp Hp Hbelow Hnanc.
     pose proof (RInv_snolinkpar s0 s' D w p HR Hnlp) as Hnlp'.
     assert (Hnc : no_children (V w) p).
     { intros q nq Hq _ Hin.
       destruct (RInv_some s0 s' D w q nq HR Hq) as [Hnin (n0 & Hs0)].
       apply Hnin. exact (Hbelow q n0 Hs0 Hin). }
     pose proof HR as (Hq & Hwf & _).
-    destruct (law_remove_leaf _ _ _ _ _ _ _ HLa w p n Hq Hwf Hnlp' Hp Hnc Hne)
+    destruct (law_remove_leaf _ _ _ _ _ _ _ _ _ HLa w p n Hq Hwf Hnlp' Hp Hnc Hne Hnanc)
       as (s1 & (w' & Hrun & HV & Hsr) & Hnone & Heqv & Hwf1).
     subst s1. exists w'. split; [exact Hrun |].
     eapply RInv_removed; eassumption.
@@ -255,18 +256,18 @@ Section Removal.
 
   Lemma try_rm_step (s0 s' : store) (D : list str) (w : world) (p : str) :
     RInv s0 s' D w -> p <> s_root -> snolinkpar s0 p ->
-    (forall q n0, s0 !! q = Some n0 -> In p (ancestors q) -> In q D) ->
+    (forall q n0, s0 !! q = Some n0 -> In p (ancestors q) -> In q D) -> ~ anc p ->
     exists w', try_rm p w = (MOk tt, w') /\ RInv s0 s' (D ++ [p]) w'.
   Proof.
-    intros HR Hne Hnlp Hbelow.
+    intros HR Hne Hnlp Hbelow Hnanc.
     pose proof (RInv_snolinkpar s0 s' D w p HR Hnlp) as Hnlp'.
     pose proof HR as (Hq & Hwf & _).
-    destruct (lexists_spec a V V' tn acc rh wh HLa w p Hq Hwf Hnlp') as (w1 & Hrun1 & HV1 & Hsr1).
+    destruct (lexists_spec a V V' tn acc rh wh hid anc HLa w p Hq Hwf Hnlp') as (w1 & Hrun1 & HV1 & Hsr1).
     pose proof (RInv_read s0 s' D w w1 HR Hsr1 HV1) as HR1.
     unfold try_rm. rewrite (bind_ok _ _ w w1 _ Hrun1).
     destruct (V w !! p) as [n|] eqn:Hp.
     - assert (Hp1 : V w1 !! p = Some n) by (rewrite HV1; exact Hp).
-      exact (remove_step s0 s' D w1 p n HR1 Hne Hnlp Hp1 Hbelow).
+      exact (remove_step s0 s' D w1 p n HR1 Hne Hnlp Hp1 Hbelow Hnanc).
     - exists w1. split; [reflexivity |].
       apply RInv_skip; [exact HR1 |]. rewrite HV1. exact Hp.
   Qed.
@@ -277,9 +278,10 @@ Section Removal.
     (forall p, In p l -> p <> s_root /\ snolinkpar s0 p /\ s0 !! p <> None /\ ~ In p D0) ->
     (forall done p todo q n0, l = done ++ p :: todo -> s0 !! q = Some n0 ->
        In p (ancestors q) -> In q (D0 ++ done)) ->
+    (forall p, In p l -> ~ anc p) ->
     exists w', collect_errs (fun p => a_remove a p) l w = (MOk [], w') /\ RInv s0 s' (D0 ++ l) w'.
   Proof.
-    intros HR Hnd Hl Hord.
+    intros HR Hnd Hl Hord Hna.
     apply (collect_errs_inv (fun p => a_remove a p) (fun done w' => RInv s0 s' (D0 ++ done) w') l w).
     - intros done p todo w1 El HR1.
       assert (Hin : In p l) by (rewrite El; apply in_or_app; right; left; reflexivity).
@@ -294,6 +296,7 @@ Section Removal.
       destruct Hp as (n & Hp).
       destruct (remove_step s0 s' (D0 ++ done) w1 p n HR1 Hne Hnlp Hp) as (w2 & Hrun & HR2).
       + intros q n0 Hq Hanc. exact (Hord done p todo q n0 El Hq Hanc).
+      + exact (Hna p Hin).
       + exists w2. split; [exact Hrun |]. rewrite app_assoc. exact HR2.
     - rewrite app_nil_r. exact HR.
   Qed.
@@ -303,15 +306,17 @@ Section Removal.
     (forall p, In p l -> p <> s_root /\ snolinkpar s0 p) ->
     (forall done p todo q n0, l = done ++ p :: todo -> s0 !! q = Some n0 ->
        In p (ancestors q) -> In q (D0 ++ done)) ->
+    (forall p, In p l -> ~ anc p) ->
     exists w', collect_errs try_rm l w = (MOk [], w') /\ RInv s0 s' (D0 ++ l) w'.
   Proof.
-    intros HR Hl Hord.
+    intros HR Hl Hord Hna.
     apply (collect_errs_inv try_rm (fun done w' => RInv s0 s' (D0 ++ done) w') l w).
     - intros done p todo w1 El HR1.
       assert (Hin : In p l) by (rewrite El; apply in_or_app; right; left; reflexivity).
       destruct (Hl p Hin) as (Hne & Hnlp).
       destruct (try_rm_step s0 s' (D0 ++ done) w1 p HR1 Hne Hnlp) as (w2 & Hrun & HR2).
       + intros q n0 Hq Hanc. exact (Hord done p todo q n0 El Hq Hanc).
+      + exact (Hna p Hin).
       + exists w2. split; [exact Hrun |]. rewrite app_assoc. exact HR2.
     - rewrite app_nil_r. exact HR.
   Qed.
@@ -373,12 +378,14 @@ Section Rollback.
   Variables tnb tnk : str -> str.
   Variables accb acck : str -> str -> Prop.
   Variables rhb rhk whb whk : fhandle -> str -> nat -> Prop.
+  Variables hid anc : str -> Prop.
   Variable B0 : store.
-  Hypothesis HLb : api_laws base Vb Vk tnb accb rhb whb.
-  Hypothesis HLk : api_laws backup Vk Vb tnk acck rhk whk.
+  Hypothesis HLb : api_laws base Vb Vk tnb accb rhb whb hid anc.
+  Hypothesis HLk : api_laws backup Vk Vb tnk acck rhk whk nohid nohid.
   Hypothesis Hlinks : links_ok tnb tnk accb acck B0.
   Hypothesis Hsmall : all_small B0.
   Hypothesis HwfB : swf B0.
+  Hypothesis Hloc : loc_ok hid anc B0.
 
   Variable w0 : world.
   Hypothesis Hinv : Inv Vb Vk B0 w0.
@@ -406,6 +413,14 @@ Section Rollback.
     intros H. destruct (inv_some Vb Vk B0 w0 Hinv p fi H) as (n0 & Hn0 & Him & _).
     exists n0. split; assumption.
   Qed.
+
+  (** an original is not at or below a hidden location *)
+  Lemma orig_not_hid (p : str) (n0 : node) : B0 !! p = Some n0 -> ~ hid p.
+  Proof. intros Hn0 Hh. rewrite (proj1 Hloc p Hh) in Hn0. discriminate Hn0. Qed.
+
+  (** what did not exist is not a proper ancestor of a hidden location *)
+  Lemma none_not_anc (p : str) : B0 !! p = None -> ~ anc p.
+  Proof. intros Hn Ha. destruct (proj2 Hloc p Ha) as [m Hm]. rewrite Hm in Hn. discriminate Hn. Qed.
 
   (** a tracked original that is not the root has its copy in the backup *)
   Lemma backup_node (p : str) (fi : finfo) :
@@ -534,7 +549,7 @@ Section Rollback.
     - assert (Hwf : swf (Vb w)) by (rewrite HV; exact (inv_wf_b Vb Vk B0 w0 Hinv)).
       assert (Hnlp : snolinkpar (Vb w) p).
       { rewrite HV. apply (inv_nolink Vb Vk B0 w0 Hinv). congruence. }
-      destruct (lexists_spec base Vb Vk tnb accb rhb whb HLb w p Hq Hwf Hnlp) as (w1 & Hrun & HV1 & Hsr).
+      destruct (lexists_spec base Vb Vk tnb accb rhb whb hid anc HLb w p Hq Hwf Hnlp) as (w1 & Hrun & HV1 & Hsr).
       rewrite (bind_ok _ _ w w1 _ (try_ok _ w w1 _ Hrun)). rewrite HV.
       exists w1.
       split.
@@ -733,7 +748,7 @@ Section Rollback.
         pose proof (prog_kind R w p fi n HP Hnin Hi Hp) as Hkn. rewrite Hk in Hkn.
         destruct n as [m | m c | m t]; simpl in Hkn; try discriminate Hkn.
         exists m. exact Hp. }
-      destruct (copy_dir_spec base Vb Vk tnb accb rhb whb HLb w p fi Hq Hwf Hdir Hne Hk Hu Hg Hcase)
+      destruct (copy_dir_spec base Vb Vk tnb accb rhb whb hid anc HLb w p fi Hq Hwf Hdir Hne Hk Hu Hg Hcase (orig_not_hid p n0 Hn0))
         as (w' & m' & Hrun & (Hsr & Hwf' & Heqv) & Hp' & Hmeta).
       exists w'. split; [exact Hrun |].
       apply (Prog_step R w w' p HP).
@@ -769,13 +784,13 @@ Section Rollback.
       assert (Hwfk : swf (Vk w)) by (rewrite HVk; exact Hwfk0).
       assert (Hpk : Vk w !! p = Some (File m0 c0)) by (rewrite HVk; exact Hnk).
       assert (Hnlpk : snolinkpar (Vk w) p) by (rewrite HVk; exact Hnlpk0).
-      destruct (law_open_file _ _ _ _ _ _ _ HLk w p m0 c0 Hq Hwfk Hnlpk Hpk)
+      destruct (law_open_file _ _ _ _ _ _ _ _ _ HLk w p m0 c0 Hq Hwfk Hnlpk Hpk)
         as (h & (wa & Hopen & HVka & Hsra) & Hrh).
       pose proof (quiet_same_rest Vb w wa Hq Hsra) as Hqa.
       pose proof (Prog_read R w wa HP Hqa (proj1 Hsra) HVka) as HPa.
       (* Stat on the handle *)
       assert (Hpka : Vk wa !! p = Some (File m0 c0)) by (rewrite HVka; exact Hpk).
-      destruct (law_hstat _ _ _ _ _ _ _ HLk wa h p 0%nat (File m0 c0) Hqa Hrh Hpka)
+      destruct (law_hstat _ _ _ _ _ _ _ _ _ HLk wa h p 0%nat (File m0 c0) Hqa Hrh Hpka)
         as (fi2 & (wb & Hstat & HVkb & Hsrb) & Him2).
       pose proof (quiet_same_rest Vb wa wb Hqa Hsrb) as Hqb.
       pose proof (Prog_read R wa wb HPa Hqb (proj1 Hsrb) HVkb) as HPb.
@@ -790,12 +805,13 @@ Section Rollback.
         pose proof (prog_kind R wb p fi n HPb Hnin Hi Hp) as Hkn. rewrite Hk in Hkn.
         destruct n as [m | m c | m t]; simpl in Hkn; try discriminate Hkn.
         exists m, c. reflexivity. }
-      destruct (copy_file_spec base backup Vb Vk tnb tnk accb acck rhb rhk whb whk HLb HLk
-                  wb p fi h p m0 c0 Hqb Hwfb Hwfkb Hdir Hk Hu Hg Hcase Hrh Hpkb (Hsmall p m0 c0 Hn0))
+      destruct (copy_file_spec base backup Vb Vk tnb tnk accb acck rhb rhk whb whk hid nohid anc nohid HLb HLk
+                  wb p fi h p m0 c0 Hqb Hwfb Hwfkb Hdir Hk Hu Hg Hcase Hrh Hpkb (Hsmall p m0 c0 Hn0)
+                  (orig_not_hid p _ Hn0))
         as (wc & m' & Hcp & (Hsrc & Hwfc & Heqvc) & Hpc & Hmeta & Hmt).
       pose proof (quiet_same_rest Vk wb wc Hqb Hsrc) as Hqc.
       (* Close *)
-      destruct (law_hclose_r _ _ _ _ _ _ _ HLk wc h p 0%nat Hqc Hrh) as (wd & Hclose & HVkd & Hsrd).
+      destruct (law_hclose_r _ _ _ _ _ _ _ _ _ HLk wc h p 0%nat Hqc Hrh) as (wd & Hclose & HVkd & Hsrd).
       pose proof (quiet_same_rest Vb wc wd Hqc Hsrd) as Hqd.
       exists wd. split.
       - unfold restore_file.
@@ -839,7 +855,7 @@ Section Rollback.
       (* Lstat on the backup *)
       assert (Hwfk : swf (Vk w)) by (rewrite HVk; exact Hwfk0).
       assert (Hnlpk : snolinkpar (Vk w) p) by (rewrite HVk; exact Hnlpk0).
-      destruct (lexists_spec backup Vk Vb tnk acck rhk whk HLk w p Hq Hwfk Hnlpk)
+      destruct (lexists_spec backup Vk Vb tnk acck rhk whk nohid nohid HLk w p Hq Hwfk Hnlpk)
         as (wa & Hex1 & HVka & Hsra).
       rewrite HVk, Hnk in Hex1.
       pose proof (quiet_same_rest Vb w wa Hq Hsra) as Hqa.
@@ -847,7 +863,7 @@ Section Rollback.
       (* Lstat on the base *)
       pose proof (prog_sdirect R wa p fi HPa Hi Hanc) as Hdira.
       pose proof HPa as (_ & Hwfa & HVka0 & _ & _).
-      destruct (lexists_spec base Vb Vk tnb accb rhb whb HLb wa p Hqa Hwfa (sdirect_snolinkpar _ _ Hdira))
+      destruct (lexists_spec base Vb Vk tnb accb rhb whb hid anc HLb wa p Hqa Hwfa (sdirect_snolinkpar _ _ Hdira))
         as (wb & Hex2 & HVb & Hsrb).
       pose proof (quiet_same_rest Vk wa wb Hqa Hsrb) as Hqb.
       pose proof (Prog_read R wa wb HPa Hqb HVb (proj1 Hsrb)) as HPb.
@@ -862,7 +878,7 @@ Section Rollback.
       { rewrite <- HVb. destruct (Vb wb !! p) as [n|] eqn:Hp.
         - pose proof (prog_kind R wb p fi n HPb Hnin Hi Hp) as Hkn.
           assert (Hnd : node_kind n <> KDir) by (rewrite Hkn, Hk; discriminate).
-          destruct (law_removeall_leaf _ _ _ _ _ _ _ HLb wb p n Hqb Hwfb
+          destruct (law_removeall_leaf _ _ _ _ _ _ _ _ _ HLb wb p n Hqb Hwfb
                       (sdirect_snolinkpar _ _ Hdirb) Hp Hnd Hne)
             as (s2 & (wc & Hrun & HVc & Hsrc) & Hnone & Heqv & Hwfc).
           subst s2. exists wc. split; [exact Hrun |].
@@ -879,8 +895,8 @@ Section Rollback.
       assert (Hnlpkc : snolinkpar (Vk wc) p) by (rewrite HVkc; exact Hnlpk0).
       assert (Hpkc : Vk wc !! p = Some (Link mk t0)) by (rewrite HVkc; exact Hnk).
       pose proof (sdirect_eqv_except_self _ _ p Hdirb Heqvc) as Hdirc.
-      destruct (copy_symlink_spec base backup Vb Vk tnb tnk accb acck rhb rhk whb whk HLb HLk
-                  wc p fi mk t0 Hqc Hwfc Hwfkc Hnlpkc Hpkc Hdirc Hpc Hk Hu Hg Htne Haccb)
+      destruct (copy_symlink_spec base backup Vb Vk tnb tnk accb acck rhb rhk whb whk hid nohid anc nohid HLb HLk
+                  wc p fi mk t0 Hqc Hwfc Hwfkc Hnlpkc Hpkc Hdirc Hpc Hk Hu Hg Htne Haccb (orig_not_hid p _ Hn0))
         as (wd & m' & Hcs & (Hsrd & Hwfd & Heqvd) & Hpd & Hp511 & Huid & Hgid).
       exists wd. split.
       - unfold restore_symlink.
@@ -1043,6 +1059,12 @@ Section Rollback.
     split; [exact Hex | intros []].
   Qed.
 
+  Lemma rm_not_anc (p : str) : In p (sort_most l_rm) -> ~ anc p.
+  Proof.
+    intros Hin. apply isort_in in Hin. apply in_rm in Hin. destruct Hin as [Hi _].
+    exact (none_not_anc p (inv_none Vb Vk B0 w0 Hinv p Hi)).
+  Qed.
+
   Lemma rm_order (done : list str) (p : str) (todo : list str) (q : str) (n0 : node) :
     sort_most l_rm = done ++ p :: todo -> Vb w0 !! q = Some n0 -> In p (ancestors q) ->
     In q ([] ++ done).
@@ -1122,8 +1144,8 @@ Section Rollback.
     assert (HR0 : RInv Vb Vk (Vb w0) (Vk w0) [] wc).
     { split; [exact Hqc |]. rewrite HVc. split; [exact Hwfb0 |]. split; [exact HVkc |].
       split; [apply store_eqv_except_refl | intros p []]. }
-    destruct (remove_pass base Vb Vk tnb accb rhb whb HLb (Vb w0) (Vk w0) [] (sort_most l_rm) wc HR0
-                (isort_nodup most l_rm l_rm_nodup) rm_elem rm_order) as (w1 & Hp1 & HR1).
+    destruct (remove_pass base Vb Vk tnb accb rhb whb hid anc HLb (Vb w0) (Vk w0) [] (sort_most l_rm) wc HR0
+                (isort_nodup most l_rm l_rm_nodup) rm_elem rm_order rm_not_anc) as (w1 & Hp1 & HR1).
     simpl app in HR1.
     pose proof HR1 as (Hq1 & Hwf1 & HVk1 & Heqv1 & Hnone1).
     assert (Hs1_none : forall p, infos !! p = Some None -> Vb w1 !! p = None).
@@ -1149,16 +1171,16 @@ Section Rollback.
       split; [apply store_eqv_except_refl | intros p []]. }
     assert (HneL : KLink <> KDir) by discriminate.
     assert (HneF : KFile <> KDir) by discriminate.
-    destruct (try_rm_pass backup Vk Vb tnk acck rhk whk HLk (Vk w0) (Vb w4) [] (sort_most l_ls) w4 HRk0
-                (bk_elem KLink) (bk_leaf_order KLink [] HneL)) as (w5 & Hp5 & HR5).
+    destruct (try_rm_pass backup Vk Vb tnk acck rhk whk nohid nohid HLk (Vk w0) (Vb w4) [] (sort_most l_ls) w4 HRk0
+                (bk_elem KLink) (bk_leaf_order KLink [] HneL) (fun p _ => not_nohid p)) as (w5 & Hp5 & HR5).
     apply (RInv_ext Vk Vb (Vk w0) (Vb w4) _ l_ls) in HR5;
       [| intros x; simpl; apply isort_in].
-    destruct (try_rm_pass backup Vk Vb tnk acck rhk whk HLk (Vk w0) (Vb w4) l_ls (sort_most l_fs) w5 HR5
-                (bk_elem KFile) (bk_leaf_order KFile l_ls HneF)) as (w6 & Hp6 & HR6).
+    destruct (try_rm_pass backup Vk Vb tnk acck rhk whk nohid nohid HLk (Vk w0) (Vb w4) l_ls (sort_most l_fs) w5 HR5
+                (bk_elem KFile) (bk_leaf_order KFile l_ls HneF) (fun p _ => not_nohid p)) as (w6 & Hp6 & HR6).
     apply (RInv_ext Vk Vb (Vk w0) (Vb w4) _ (l_ls ++ l_fs)) in HR6;
       [| intros x; rewrite !in_app_iff; unfold sort_most; rewrite isort_in; reflexivity].
-    destruct (try_rm_pass backup Vk Vb tnk acck rhk whk HLk (Vk w0) (Vb w4) (l_ls ++ l_fs)
-                (sort_most l_ds) w6 HR6 (bk_elem KDir) bk_dir_order) as (w7 & Hp7 & HR7).
+    destruct (try_rm_pass backup Vk Vb tnk acck rhk whk nohid nohid HLk (Vk w0) (Vb w4) (l_ls ++ l_fs)
+                (sort_most l_ds) w6 HR6 (bk_elem KDir) bk_dir_order (fun p _ => not_nohid p)) as (w7 & Hp7 & HR7).
     pose proof HR7 as (Hq7 & _ & HVb7 & Heqv7 & Hnone7).
     exists w7. split; [| split; [exact Hq7 | split]].
     - unfold b_rollback.
@@ -1190,31 +1212,31 @@ End Rollback.
     before the final [put_infos ∅]; the world Rollback returns is
     [with_infos w7 ∅]. *)
 Theorem rollback_core_spec :
-  forall base backup Vb Vk tnb tnk accb acck rhb rhk whb whk B0,
-  base_laws base Vb Vk tnb accb rhb whb -> backup_laws backup Vb Vk tnk acck rhk whk ->
-  links_ok tnb tnk accb acck B0 -> all_small B0 -> swf B0 ->
+  forall base backup Vb Vk tnb tnk accb acck rhb rhk whb whk hid anc B0,
+  base_laws base Vb Vk tnb accb rhb whb hid anc -> backup_laws backup Vb Vk tnk acck rhk whk ->
+  links_ok tnb tnk accb acck B0 -> all_small B0 -> swf B0 -> loc_ok hid anc B0 ->
   forall w, Inv Vb Vk B0 w ->
   exists w7, b_rollback base backup w = (MOk tt, with_infos w7 ∅) /\ quiet w7 /\
              store_eqv (Vb w7) B0 /\ (forall p, p <> s_root -> Vk w7 !! p = None).
 Proof.
-  intros base backup Vb Vk tnb tnk accb acck rhb rhk whb whk B0 HLb HLk Hlinks Hsmall HwfB w Hinv.
-  exact (rollback_core base backup Vb Vk tnb tnk accb acck rhb rhk whb whk B0
-           HLb HLk Hlinks Hsmall HwfB w Hinv).
+  intros base backup Vb Vk tnb tnk accb acck rhb rhk whb whk hid anc B0 HLb HLk Hlinks Hsmall HwfB Hloc w Hinv.
+  exact (rollback_core base backup Vb Vk tnb tnk accb acck rhb rhk whb whk hid anc B0
+           HLb HLk Hlinks Hsmall HwfB Hloc w Hinv).
 Qed.
 (** [rollback_stmt] of Spec/CopySpecs.v: by [law_infos_indep] the final
     [put_infos ∅] changes neither view. *)
 Theorem rollback_spec :
-  forall base backup Vb Vk tnb tnk accb acck rhb rhk whb whk B0,
-  rollback_stmt base backup Vb Vk tnb tnk accb acck rhb rhk whb whk B0.
+  forall base backup Vb Vk tnb tnk accb acck rhb rhk whb whk hid anc B0,
+  rollback_stmt base backup Vb Vk tnb tnk accb acck rhb rhk whb whk hid anc B0.
 Proof.
-  intros base backup Vb Vk tnb tnk accb acck rhb rhk whb whk B0.
-  unfold rollback_stmt. cbv zeta. intros HLb HLk Hlinks Hsmall HwfB w Hinv.
-  destruct (rollback_core_spec base backup Vb Vk tnb tnk accb acck rhb rhk whb whk B0
-              HLb HLk Hlinks Hsmall HwfB w Hinv) as (w7 & Hrun & Hq & Hb & Hk).
+  intros base backup Vb Vk tnb tnk accb acck rhb rhk whb whk hid anc B0.
+  unfold rollback_stmt. cbv zeta. intros HLb HLk Hlinks Hsmall HwfB Hloc w Hinv.
+  destruct (rollback_core_spec base backup Vb Vk tnb tnk accb acck rhb rhk whb whk hid anc B0
+              HLb HLk Hlinks Hsmall HwfB Hloc w Hinv) as (w7 & Hrun & Hq & Hb & Hk).
   exists (with_infos w7 ∅). split; [exact Hrun |].
   split; [exact Hq |].
-  split; [rewrite (law_infos_indep _ _ _ _ _ _ _ HLb); exact Hb |].
-  split; [intros p Hp; rewrite (law_infos_indep _ _ _ _ _ _ _ HLk); exact (Hk p Hp) | reflexivity].
+  split; [rewrite (law_infos_indep _ _ _ _ _ _ _ _ _ HLb); exact Hb |].
+  split; [intros p Hp; rewrite (law_infos_indep _ _ _ _ _ _ _ _ _ HLk); exact (Hk p Hp) | reflexivity].
 Qed.
 
 Print Assumptions rollback_core_spec.
